@@ -209,7 +209,7 @@ package css
 //@        ite(l.r.pos > cssNumEnd(l.r.buf, old(l.r.pos)), result == DimensionToken, result == NumberToken && l.r.pos == cssNumEnd(l.r.buf, old(l.r.pos)))))
 // a number is a dimension exactly when an identifier (in any spelling: letters, '-', non-ASCII, escapes) starts right after it,
 // and the unit is that whole identifier
-//@   ensures[F,C07] @unit: cssNumEnd(l.r.buf, old(l.r.pos)) != old(l.r.pos) && l.r.buf[cssNumEnd(l.r.buf, old(l.r.pos))] != '%' ==> (result == DimensionToken <==> identBody(l.r.buf, cssNumEnd(l.r.buf, old(l.r.pos))) != 0) && (result == DimensionToken ==> l.r.pos == nameEnd(l.r.buf, identBody(l.r.buf, cssNumEnd(l.r.buf, old(l.r.pos)))))
+//@   ensures[F,C07,local] @unit: cssNumEnd(l.r.buf, old(l.r.pos)) != old(l.r.pos) && l.r.buf[cssNumEnd(l.r.buf, old(l.r.pos))] != '%' ==> (result == DimensionToken <==> identBody(l.r.buf, cssNumEnd(l.r.buf, old(l.r.pos))) != 0) && (result == DimensionToken ==> l.r.pos == nameEnd(l.r.buf, identBody(l.r.buf, cssNumEnd(l.r.buf, old(l.r.pos)))))
 //@   ensures[S]  @kind: result == ErrorToken || result == PercentageToken || result == DimensionToken || result == NumberToken
 //@   preserves[S] lexStep(l)
 //@   ensures[S]  result == ErrorToken ==> l.r.pos == old(l.r.pos)
